@@ -629,15 +629,32 @@ def dominated_by_equality(body, bb, want, pred, prog=None):
     return False
 
 
+TWO_VARIANT = {"core::option::Option": 2, "core::result::Result": 2, "core::task::poll::Poll": 2, "core::ops::control_flow::ControlFlow": 2,
+               "std::collections::hash::map::Entry": 2, "scc::hash_map::Entry": 2}
+
+
 def variant_edges(body, adt_suffix):
     """[(switch_bb, target_bb, variant_index or 'otherwise', Cond)] for switches on the discriminant
-    of an enum whose path ends with adt_suffix."""
+    of an enum whose path ends with adt_suffix.  When exactly one variant is not listed explicitly,
+    the `otherwise` edge is reported under that variant's index."""
     out = []
     for sb in switches(body):
         c = switch_cond(body, sb)
         if c.kind == "disc" and c.adt and c.adt.endswith(adt_suffix):
-            for v, tb in switch_edges(body, sb):
-                out.append((sb, tb, v, c))
+            edges = switch_edges(body, sb)
+            explicit = [v for v, _ in edges if v != "otherwise"]
+            nvar = TWO_VARIANT.get(c.adt)
+            if nvar is None and body.prog is not None and c.adt in body.prog.adts:
+                nvar = len(body.prog.adts[c.adt]["variants"])
+            missing = [i for i in range(nvar) if i not in explicit] if nvar else []
+            for v, tb in edges:
+                if v == "otherwise" and len(missing) == 1:
+                    # skip an `otherwise` that only leads to `unreachable`
+                    out.append((sb, tb, missing[0], c))
+                elif v == "otherwise" and not missing and nvar:
+                    continue
+                else:
+                    out.append((sb, tb, v, c))
     return out
 
 
